@@ -208,3 +208,83 @@ class World:
             for c in self.closures_of(fn):
                 r.extend(t for t in c.calls() if callee_matches(t.callee, pattern))
         return r
+
+
+# ---------------------------------------------------------------------------------------------------------
+# analysis E: effect summaries
+# ---------------------------------------------------------------------------------------------------------
+
+def _subst_root(ap_str, mapping):
+    """rewrite the root of an access-path string (`self.x[*].y`, `arg2.z`, `^self.w`) through mapping root->caller path"""
+    import re
+    m = re.match(r'^(\^?[A-Za-z_][A-Za-z_0-9]*)(.*)$', ap_str)
+    if not m:
+        return None
+    root, rest = m.group(1), m.group(2)
+    if root in mapping:
+        base = mapping[root]
+        if base is None:
+            return None
+        return base + rest
+    return None
+
+
+class Effects:
+    """for every function the set of (generic) access-path strings, rooted at its parameters (`self`, `argN`) or at
+    captured variables (`^name`), that it may write -- directly, through calls (callee roots mapped to the caller's
+    argument paths) or through closures it constructs.  Writes rooted at locals are dropped."""
+
+    def __init__(self, W):
+        self.W = W
+        self.memo = {}
+        self.by_fn = {}
+        for w in W.writes():
+            self.by_fn.setdefault(w['fn'], []).append(w)
+
+    def of(self, fn, _stack=()):
+        if fn in self.memo:
+            return self.memo[fn]
+        if fn in _stack:
+            return set()
+        W = self.W
+        cx = W.ctx(fn)
+        out = set()
+        for w in self.by_fn.get(fn, []):
+            ap = w['ap']
+            if w['kind'] == 'store':
+                if ap.root[0] in ('arg', 'upvar'):
+                    out.add(ap.s(fn, generic=True))
+                continue
+            # a call receiving &mut
+            t = w['site']
+            tg = W.cg.targets(t.callee)
+            base = ap.s(fn, generic=True) if ap.root[0] in ('arg', 'upvar') else None
+            if tg:
+                for g in tg:
+                    sub = self.of(g, _stack + (fn,))
+                    mapping = {}
+                    for i, a in enumerate(t.args):
+                        nm = 'self' if g.local_name(i + 1) == 'self' else 'arg%d' % (i + 1)
+                        if a.is_place():
+                            apc = cx.ap_carry(a.place)
+                            mapping[nm] = apc.s(fn, generic=True) if apc.root[0] in ('arg', 'upvar') else None
+                        else:
+                            mapping[nm] = None
+                    for e in sub:
+                        r = _subst_root(e, mapping)
+                        if r is not None:
+                            out.add(r)
+            else:
+                if base is not None:
+                    out.add(base)
+        # closures constructed here: their upvar-rooted effects, mapped through the captured places
+        for c in W.closures_of(fn):
+            if c.direct_parent != fn.path and c.parent != fn.path:
+                continue
+            sub = self.of(c, _stack + (fn,))
+            for e in sub:
+                if e.startswith('^'):
+                    e2 = e[1:]
+                    out.add(e2 if e2.startswith('self') else '^' + e2 if fn.kind == 'closure' else e2)
+        self.memo[fn] = out
+        return out
